@@ -419,7 +419,8 @@ fn exec_par<T: 'static + Send + Sync + Clone>(chain: &[Node], partitions: usize)
                         let mut next: Vec<Partition> = Vec::with_capacity(accs.len().div_ceil(f));
                         let mut it = accs.into_iter(); // take ownership to avoid clones
                         loop {
-                            let mut group: Vec<Partition> = Vec::with_capacity(f);
+                            // `f` may be any finite fan-out (e.g. u32::MAX): reserve for what is actually left.
+                            let mut group: Vec<Partition> = Vec::with_capacity(f.min(it.len()));
                             for _ in 0..f {
                                 if let Some(p) = it.next() {
                                     group.push(p);
@@ -546,7 +547,8 @@ fn exec_par<T: 'static + Send + Sync + Clone>(chain: &[Node], partitions: usize)
                     let mut next: Vec<Partition> = Vec::with_capacity(accs.len().div_ceil(f));
                     let mut it = accs.into_iter();
                     loop {
-                        let mut group: Vec<Partition> = Vec::with_capacity(f);
+                        // `f` may be any finite fan-out (e.g. u32::MAX): reserve for what is actually left.
+                        let mut group: Vec<Partition> = Vec::with_capacity(f.min(it.len()));
                         for _ in 0..f {
                             if let Some(p) = it.next() {
                                 group.push(p);
